@@ -35,6 +35,8 @@ type Meta struct {
 	Padded    int            `json:"cases_with_padding"`
 	Streams   map[string]int `json:"streams_per_case"`
 	Samples   []CaseJSON     `json:"samples"`
+	Preface   string         `json:"preface_shard,omitempty"`
+	PrefaceN  int            `json:"preface_cases,omitempty"`
 }
 
 func (m *Meta) account(name string, ops []Op, c *Case) {
@@ -107,7 +109,10 @@ func fwdHasCont(fs []Frame) bool {
 }
 
 // Main is the body of cmd/c09 and cmd/c10.
-func Main(propWhy string) {
+func Main(propWhy string) { MainOpt(propWhy, false) }
+
+// MainOpt: withPreface adds the forwardPreface segmentation cases (C10).
+func MainOpt(propWhy string, withPreface bool) {
 	seed := flag.Uint64("seed", 1, "PRNG seed")
 	tier := flag.String("tier", "quick", "quick|thorough")
 	out := flag.String("out", "", "output directory")
@@ -138,7 +143,23 @@ func Main(propWhy string) {
 		descr = append(descr, CaseJSON{Name: name, Ops: ops, Flush: flush, Steps: c.Steps})
 		m.account(name, ops, c)
 	}
+	var prefaceIn [][][]byte
 	if *replay != "" {
+		data, err := os.ReadFile(*replay)
+		if err != nil {
+			panic(err)
+		}
+		var pr struct {
+			Reads [][]byte `json:"preface_reads"`
+		}
+		if json.Unmarshal(data, &pr) == nil && pr.Reads != nil {
+			prefaceIn = [][][]byte{pr.Reads}
+			withPreface = true
+		}
+	}
+	if prefaceIn != nil {
+		// replay of one preface case: no histories
+	} else if *replay != "" {
 		data, err := os.ReadFile(*replay)
 		if err != nil {
 			panic(err)
@@ -184,6 +205,29 @@ func Main(propWhy string) {
 			panic(err)
 		}
 		m.Shards = append(m.Shards, name)
+	}
+	if withPreface {
+		if prefaceIn == nil {
+			prefaceIn = PrefaceSchedules()
+		}
+		var pcs []PrefaceCase
+		for _, rd := range prefaceIn {
+			pcs = append(pcs, RunPreface(rd))
+		}
+		name, err := WritePrefaceShard(*out, pcs)
+		if err != nil {
+			panic(err)
+		}
+		m.Preface, m.PrefaceN = name, len(pcs)
+		pf, err := os.Create(filepath.Join(*out, "preface.jsonl"))
+		if err != nil {
+			panic(err)
+		}
+		penc := json.NewEncoder(pf)
+		for _, pc := range pcs {
+			_ = penc.Encode(pc)
+		}
+		pf.Close()
 	}
 	f, err := os.Create(filepath.Join(*out, "cases.jsonl"))
 	if err != nil {
